@@ -1417,6 +1417,15 @@ def _split_parallel_assignments(fn) -> bool:
             i = 0
             while i < len(blk):
                 st = blk[i]
+                if isinstance(st, ast.Assign) and len(st.targets) > 1 and isinstance(st.value, ast.Constant) and all(_is_plain_target(t) for t in st.targets):
+                    # `a = b = <constant>` is `a = <constant>; b = <constant>` (targets are bound left to right)
+                    parts = [ast.copy_location(ast.Assign(targets=[t], value=ast.copy_location(ast.Constant(value=st.value.value), st.value)), st) for t in st.targets]
+                    blk[i:i + 1] = parts
+                    for x in parts:
+                        ast.fix_missing_locations(x)
+                    changed = True
+                    i += len(parts)
+                    continue
                 if isinstance(st, ast.Assign) and len(st.targets) == 1 and isinstance(st.targets[0], ast.Tuple) and isinstance(st.value, ast.Tuple) \
                         and len(st.targets[0].elts) == len(st.value.elts) and all(_is_plain_target(t) for t in st.targets[0].elts) \
                         and not any(isinstance(x, (ast.Starred, ast.NamedExpr)) for v in st.value.elts for x in ast.walk(v)):
@@ -1780,6 +1789,7 @@ def resolve_aliases(repo: Repo):
                     chd._parent = par
     for f in repo.all_funcs:
         _canonical_suppress(f.node)
+        _canonical_partial_spawn(f.node)
         _split_live_ranges(f.node)
     for f in repo.all_funcs:
         if _canonical_bool_locals(f.node, repo):
@@ -1834,6 +1844,60 @@ def resolve_aliases(repo: Repo):
             for par in ast.walk(f.node):
                 for ch in ast.iter_child_nodes(par):
                     ch._parent = par
+
+
+def _canonical_partial_spawn(fn) -> bool:
+    """`run_sync(partial(F, a, b, k=v), c)` calls `F(a, b, c, k=v)` in the target thread, as does `run_sync(partial(F, k=v), a, b, c)`:
+    positional arguments bound by the partial are written at the call (also when the partial was bound to a single-use local in
+    the statement before).  Only for `run_sync`, whose contract is `func(*args)`."""
+    uses: dict[str, int] = {}
+    for n in own_walk(fn):
+        if isinstance(n, ast.Name):
+            uses[n.id] = uses.get(n.id, 0) + 1
+    changed = False
+
+    def is_partial(e):
+        return isinstance(e, ast.Call) and isinstance(e.func, ast.Name) and e.func.id == "partial" and e.args \
+            and not any(isinstance(a, ast.Starred) for a in e.args) and not any(k.arg is None for k in e.keywords) \
+            and not any(isinstance(x, (ast.Call, ast.Await, ast.NamedExpr, ast.Yield, ast.YieldFrom)) for a in e.args for x in ast.walk(a))
+
+    for par in [fn] + list(own_walk(fn)):
+        for fld in ("body", "orelse", "finalbody"):
+            blk = getattr(par, fld, None)
+            if not isinstance(blk, list):
+                continue
+            i = 0
+            while i < len(blk):
+                st = blk[i]
+                for c in [x for x in ast.walk(st) if isinstance(x, ast.Call) and isinstance(x.func, ast.Name) and x.func.id == "run_sync" and x.args] \
+                        if isinstance(st, (ast.Expr, ast.Assign, ast.Return)) else []:
+                    first = c.args[0]
+                    pdef = None
+                    if isinstance(first, ast.Name) and uses.get(first.id, 0) == 2 and i > 0 and isinstance(blk[i - 1], ast.Assign) \
+                            and len(blk[i - 1].targets) == 1 and isinstance(blk[i - 1].targets[0], ast.Name) and blk[i - 1].targets[0].id == first.id \
+                            and is_partial(blk[i - 1].value):
+                        pdef = blk[i - 1]
+                        pc = pdef.value
+                    elif is_partial(first):
+                        pc = first
+                    else:
+                        continue
+                    if len(pc.args) <= 1 and pdef is None:
+                        continue        # already canonical
+                    head = ast.Call(func=pc.func, args=[pc.args[0]], keywords=pc.keywords) if pc.keywords else pc.args[0]
+                    ast.copy_location(head, first)
+                    c.args = [head] + list(pc.args[1:]) + list(c.args[1:])
+                    ast.fix_missing_locations(c)
+                    if pdef is not None:
+                        del blk[i - 1]
+                        i -= 1
+                    changed = True
+                i += 1
+    if changed:
+        for par_ in ast.walk(fn):
+            for ch in ast.iter_child_nodes(par_):
+                ch._parent = par_
+    return changed
 
 
 def _canonical_suppress(fn) -> bool:
